@@ -476,6 +476,9 @@ class StmtMixin:
         if not isinstance(base, VRef):
             self.unsupported(node, 'attribute assignment on %r' % (base,))
         cls = base.cls
+        if attr in ('__cause__', '__context__', '__traceback__'):
+            self.dropped.add('exception chaining attributes (__cause__ etc.)')
+            return [st]
         d0 = (self.reg.classes.get(cls) or self.reg.class_by_key.get(cls)) if cls else None
         ty = d0.fields.get(attr) if d0 is not None else None
         if ty is None and cls is not None:
